@@ -26,7 +26,7 @@ Print Assumptions C15_obs_eqb.
 
 (* ---- the clauses, stated on the model's own state.  Ready w: the reactor is at rest (not running, no
    pending calls, no selectables, never really stopped, no run() in progress) and the harness's log of
-   executed calls is empty.  WHO reactor.stop is (the stock method or any instance-level override) and
+   executed calls and of re-entrant attempts is empty.  WHO reactor.stop is (the stock method or any instance-level override) and
    which handlers are installed (SIG_DFL, SIG_IGN, any callable, or the disposition getsignal() reports as
    None) is arbitrary. ---- *)
 
@@ -62,9 +62,14 @@ Theorem C15_reentry : forall iters batch T f w, w_flag w = true -> run iters bat
 Proof. exact run_reentrant. Qed.
 Print Assumptions C15_reentry.
 
-(* ... in particular the call the function makes from inside run(); and the flag is reset afterwards *)
-Theorem C15_reentry_inside : forall batch T f w, Ready w -> sp_junk (w_sp w) = [] -> f_reenter f = true ->
-  w_reentry (snd (run1 batch T f w)) = Some true /\ w_flag (snd (run1 batch T f w)) = false.
+(* ... in particular EVERY call made while the run is in progress - any number of them by the function itself (the
+   caller swallows the refusal and tries again), and those made by its delayed calls at any instant of the spin,
+   through the same or another Spinner: each is refused and changes nothing; all the function's own attempts
+   are accounted for; the flag is reset afterwards *)
+Theorem C15_reentry_inside : forall batch T f w, Ready w -> sp_junk (w_sp w) = [] ->
+  (forall b, In b (w_reentry (snd (run1 batch T f w))) -> b = true)
+  /\ length (f_reenter f) <= length (w_reentry (snd (run1 batch T f w)))
+  /\ w_flag (snd (run1 batch T f w)) = false.
 Proof. exact clause_reentry. Qed.
 Print Assumptions C15_reentry_inside.
 
@@ -104,9 +109,11 @@ Proof. exact clause_histories. Qed.
 Print Assumptions C15_histories.
 
 (* the event loop itself: from the state in which it is entered it always ends by a crash (never hangs,
-   never runs out of the fuel run() supplies) and preserves the invariant *)
-Theorem C15_loop_terminates : forall x batch fuel w, Inv x w -> length (queue (w_r w)) < fuel ->
-  exists w', loop w_r set_r exec_call batch fuel w = (LDone, w') /\ Inv x w' /\ running (w_r w') = false.
+   never runs out of the fuel run() supplies) and preserves the invariant - which includes "the re-entrancy flag
+   is set" and "every re-entrant attempt so far was refused" - whatever a refused nested call is (inn) *)
+Theorem C15_loop_terminates : forall x batch inn, refuses inn -> forall fuel w,
+  Inv x w -> length (queue (w_r w)) < fuel ->
+  exists w', loop w_r set_r (exec_call inn) batch fuel w = (LDone, w') /\ Inv x w' /\ running (w_r w') = false.
 Proof. exact loop_ok. Qed.
 Print Assumptions C15_loop_terminates.
 
@@ -127,22 +134,24 @@ Proof. exact tab_signals_distinct. Qed.
 Print Assumptions C15_table_signals_distinct.
 
 (* non-vacuity: a failing run, then a Deferred firing exactly at the timeout tick (the oracle lets it win),
-   then a run that leaves junk and is stopped, a refused run, and a run after clear_junk that re-enters;
+   then a run that leaves junk and is stopped, a refused run, and a run after clear_junk; the function re-enters
+   twice in run 2 and three times in run 5 (same / another Spinner), a delayed call re-enters in run 3 (in run 2 the
+   re-entering delayed call is due at the timeout tick and is cancelled as junk instead);
    reactor.stop is overridden on the instance before the 2nd run, reset before the 4th, overridden before the 5th;
    in the 5th SIGTERM has a handler getsignal() reports as None: the run is unaffected, the other two are restored *)
 Example C15_example :
-  let f0 := mkFn (Sync 0 (Fail 1)) [] 0 None false false None in
-  let f1 := mkFn (Later 5 (Succeed 6)) [5] 0 None false false None in
-  let f2 := mkFn Never [1; 9] 2 (Some 3) false false (Some (sig_int, 8)) in
-  let f3 := mkFn (Sync 0 (Succeed 4)) [] 0 None false true None in
+  let f0 := mkFn (Sync 0 (Fail 1)) [] 0 None false [] None in
+  let f1 := mkFn (Later 5 (Succeed 6)) [(5, Some true)] 0 None false [false; false] None in
+  let f2 := mkFn Never [(1, Some false); (9, None)] 2 (Some 3) false [] (Some (sig_int, 8)) in
+  let f3 := mkFn (Sync 0 (Succeed 4)) [] 0 None false [true; false; true] None in
   let i := mkInput [2] false
-             [mkRun false true [0;0;0] None 5 f0; mkRun false true [3;1;4] (Some 2) 5 f1;
-              mkRun false true [2;0;0] None 5 f2; mkRun false false [0;0;0] (Some 0) 5 f3;
-              mkRun false true [1;h_none;3] (Some 1) 5 f3] in
+             [mkRun true [0;0;0] None 5 f0; mkRun true [3;1;4] (Some 2) 5 f1;
+              mkRun true [2;0;0] None 5 f2; mkRun false [0;0;0] (Some 0) 5 f3;
+              mkRun true [1;h_none;3] (Some 1) 5 f3] in
   wf i /\ spec_okb i (model i) = true
   /\ map o_res (model i) = [Raised (EUser 1); Ok 6; Raised ENoResult; Raised EStaleJunk; Ok 4]
   /\ map o_junk (model i) = [[]; [10]; [0; 11; 100; 101]; [0; 11; 100; 101]; []]
   /\ map o_sigs (model i) = [[0;0;0]; [3;1;4]; [2;0;0]; [0;0;0]; [1;9;3]]
-  /\ map o_reentry (model i) = [None; None; None; None; Some true]
+  /\ map o_reentry (model i) = [[]; [true; true]; [true]; []; [true; true; true]]
   /\ map o_stop (model i) = [0; 2; 2; 0; 1] /\ map o_stopped (model i) = [false; false; false; false; false].
 Proof. vm_compute. repeat split; repeat constructor. Qed.
